@@ -114,6 +114,16 @@ def wrap_container(arr, cont, name=None, index=None):
             chunks.append(_pa(arr[pos:pos + l], type=typ))
             pos += l
         return pa.chunked_array(chunks, type=typ)
+    if isinstance(cont, (list, tuple)) and cont[0] == "pachunkdict":
+        # arrow dictionary-typed keys, every chunk encoded on its own: the chunks' dictionaries differ (order and content)
+        pos, chunks = 0, []
+        typ = None
+        for l in cont[1]:
+            ch = pa.array(arr[pos:pos + l], type=pa.array(arr).type).dictionary_encode()
+            typ = typ or ch.type
+            chunks.append(ch)
+            pos += l
+        return pa.chunked_array(chunks, type=typ)
     if cont == "arrowseries":
         if NAN_AS_NULL and isinstance(arr, np.ndarray) and arr.dtype.kind == "f":
             return pd.Series(pd.arrays.ArrowExtensionArray(_pa(arr)), name=name)
@@ -243,6 +253,14 @@ def run_reduce(case, gb=None):
     try:
         keyobj, encs = build_keys(case)
         tr["rank"], tr["seed"] = key_meta(case, encs)
+        if isinstance(case.get("kcont"), (list, tuple)) and case["kcont"][0] == "pachunkdict":
+            # arrow dictionary-typed keys are categorical: "category order" is the order of the (unified) dictionary, i.e. the
+            # first appearance of each label across the chunks
+            seen = []
+            for row in case["keys"]:
+                if row[0] != NULL and row[0] not in seen:
+                    seen.append(row[0])
+            tr["rank"] = [seen]
         values = wrap_container(emb.enc(case["vals"]), case.get("vcont", "np"), name=case.get("vname"), index=case.get("vindex"))
         mask = build_call_mask(case, n)
         tr["idt"] = dtdesc(values)
